@@ -14,6 +14,9 @@ from . import mp_common as M
 INV = ["PrefixOK", "LimitExact", "NoEarly413", "BoundedHold"]
 
 
+OPENFIX = True
+
+
 def forms():
     P = M.part
     long_r = ("r",) + ("x",) * 12
@@ -26,6 +29,10 @@ def forms():
         (P("file", ("x",)), P("file", ())), (P("field", ("r", "n", "x")), P("field", ())),
         (P("file", long_r),), (P("file", long_n),), (P("field", long_r),), (P("file", mid_r),), (P("field", rr),),
         (P("field", ("x",) * 9),), (P("file", ("n", "r") + ("x",) * 9),),
+        # the text "--boundary" inside part data without being a delimiter line: after a line break + junk, with blanks, with one dash
+        (P("file", ("n", "d", "d", "b", "x") + ("x",) * 12),), (P("field", ("r", "n", "d", "d", "b", "x") + ("x",) * 12),),
+        (P("file", ("x", "r", "n", "d", "d", "b", "s", "x", "x")),), (P("field", ("r", "n", "d", "d", "b", "d", "x")),),
+        (P("file", ("d", "d", "b", "x", "x", "x", "x", "x", "x", "x", "x", "x", "x")),),
     ]
     return fs
 
@@ -54,7 +61,7 @@ def measure_hold(ctx, rnd):
     delim = b"\r\n--" + boundary
     CH = 64 * 1024
     size = 1 << 20 if ctx.tier == "quick" else 4 << 20
-    leads = [b"\r", b"\n", b"\r\n", b"x\ry", b"", b"\n\r"]
+    leads = [b"\r", b"\n", b"\r\n", b"x\ry", b"", b"\n\r", b"\n--" + boundary + b"x", b"\r\n--" + boundary + b" \tx", b"--" + boundary, b"\r\n--" + boundary + b"-x"]
     for lead in leads:
         content = lead + bytes(rnd.getrandbits(8) | 0x80 for _ in range(64)) * (size // 64)
         content = content.replace(b"\r", b"\xfe").replace(b"\n", b"\xfd") if False else lead + b"\xaa" * size
@@ -122,7 +129,7 @@ def run(ctx):
     fs = forms()
     lims = limit_grid(fs)
     K = dict(Bnd=M.BND, Forms=frozenset(fs), Preambles=frozenset({()}), MaxChunk=2 if ctx.tier == "quick" else 3,
-             Limits=frozenset(lims), HoldFix=True)
+             Limits=frozenset(lims), HoldFix=True, OpenFix=OPENFIX)
     ctx.bounds = {"forms": len(fs), "limit_settings": len(lims), "MaxChunk": K["MaxChunk"]}
     ctx.rule = ("every (form, limits) scenario of Multipart.tla (limits at the exact totals -1/0/+1) on parse_stream and "
                 "parse_async_stream under byte-level chunkings, 324/325 parts on the form accessors, megabyte parts with a leading "
@@ -146,6 +153,13 @@ def run(ctx):
     if wres.violated != "BoundedHold":
         raise common.MachineryError("witness failed: HoldFix=FALSE does not violate BoundedHold (%s)" % wres.violated)
     ctx.notes.append("witness: original hold-back rule (HoldFix=FALSE) violates BoundedHold after %d states" % wres.distinct)
+    KW2 = dict(K, OpenFix=False, Limits=frozenset({M.Rec(parts=M.UNL, mem=M.UNL)}))
+    tlc.write_mc(wd, "MC_MultipartOrig2", "Multipart", constants=KW2,
+                 cfg_lines=["SPECIFICATION Spec", "CHECK_DEADLOCK FALSE", "INVARIANT BoundedHold"])
+    wres = tlc.run_tlc(wd, "MC_MultipartOrig2", coverage=False, heap="10g")
+    if wres.violated != "BoundedHold":
+        raise common.MachineryError("witness failed: OpenFix=FALSE does not violate BoundedHold (%s)" % wres.violated)
+    ctx.notes.append("witness: original rule for 'delimiter text without delimiter line' (OpenFix=FALSE) violates BoundedHold after %d states" % wres.distinct)
 
     g = graph.Graph.load(res.dot)
     expected = {}
@@ -187,6 +201,13 @@ def run(ctx):
             if out != want:
                 ctx.violation({"parts": nparts, "api": which}, want, out, "default part limit: %d parts gave %s" % (nparts, out))
     measure_hold(ctx, rnd)
+    # code -> spec: sessions with long parts fed in the helpers' way (drain after every chunk); the hold-back bound is checked per
+    # session in Python and as invariant THold by TLC on every state of the recorded session (TraceMultipart.tla)
+    from .. import mp_trace
+    nlong = 8 if ctx.tier == "quick" else 60
+    nev = mp_trace.long_sessions(ctx, wd, nlong, rnd, "C15", hold_only=True)
+    ctx.bounds["long_sessions"] = {"per_boundary": nlong, "boundaries": len(mp_trace.BOUNDARIES), "events": nev, "part_bytes": "3000 / 12000"}
+    ctx.notes.append("TraceMultipart: %d events of long-part decoder sessions validated with THold" % nev)
 
 
 if __name__ == "__main__":
